@@ -19,7 +19,7 @@ RULE = ('cases: add_/sub_/mul_/div_/pow_/gt_/ge_/lt_/le_ on 2 operands, each a f
         'df_mean operands multiples of 12), so float and exact integer arithmetic agree; +-inf cells and scalars (carried as +-10^9) in 30% of the add/sub/mul/div/comparison/min/max cases, where the IEEE result needs no rounding; a non-integer result is observed as its '
         'float.hex() and can never match the model. Observed: kind, index, columns, every cell; compared in Coq with the model '
         'M_tsops on the alignment model M_align; the oracle recomputes the result from the statement (Python sets + Fractions). '
-        'Varied in kind: b omitted, f(a, b) call form, scalar types int / float / np.float64 / np.int64, int-dtype operands, spellings, long / integer column names, 1 us .. 1 day ticks and 1900 / 2250 origins, 120-250-row series; df_std is checked by the oracle only (1e-9). non-trivial = at least two timeseries operands with different, overlapping indices, or a zero divisor; distinct by input')
+        'Varied in kind: b omitted, f(a, b) call form, scalar types int / float / np.float64 / np.int64, int-dtype operands, spellings, long / integer column names, 1 us .. 1 day ticks and 1900 / 2250 origins, 120-250-row series; df_std is checked by the oracle only (1e-9); timezone-aware indices in 25% of the cases. Operands are built once per case: the operator is called twice on the same objects (identical result required), add_/sub_/mul_/div_ cases then apply a SECOND operator (add_/sub_/mul_) to the very same objects (oracle-checked; 120 cases with zero-holding denominators already on the joint index), and a deep snapshot of every operand (cells, index, dtype, name) must be unchanged. non-trivial = at least two timeseries operands with different, overlapping indices, or a zero divisor; distinct by input')
 EXPLANATION = ('theorems C08_* (coq/props/C08.v) hold for every cell operation opc (a Section parameter), every pair/list of series, every '
                'pair of multi-column DataFrames and every index / column policy: result index = intersection/union (first/last), result '
                'columns = intersection/union (first/last) of the column sets, result[t, x] = opc a[t, x] b[t, x] with NaN where an operand '
@@ -99,37 +99,63 @@ def canon_result(r, any_multi):
     o = c03.canon(r, [], cell)
     return o
 
+_EXTRA = [None]
 def run_case(case):
+    """-> (status, observation of the first call); _EXTRA[0] = violation found when the SAME operand objects are used again"""
     c03.set_axis(case)
+    _EXTRA[0] = None
     try:
         any_multi = any('F' in l and len(l['F']['cols']) > 1 for l in operand_leaves(case))
         kw = dict(join=c03.spelled(case, 'how', case['how']), method=c03.spelled(case, 'method', case['method']),
                   columns=c03.spelled(case, 'columns', case['columns']))
-        def split(xs):          # min_(a, b) / df_sum(a, b): the operands given as two arguments instead of one list
-            k = case.get('split')
-            objs = [c03.build(l, []) for l in xs]
-            if not k or k >= len(objs):
-                return (objs,)
-            one = lambda l: l[0] if len(l) == 1 else l
-            return (one(objs[:k]), one(objs[k:]))
+        std = case.get('agg') == 'std'
+        see = (lambda r: c03.canon(r, [], lambda v: 'NaN' if float(v) != float(v) else float(v).hex())) if std else (lambda r: canon_result(r, any_multi))
         if case['kind'] == 'op':
+            A, B = build_operand(case['a']), build_operand(case['b'])       # built once: every call below uses these very objects
+            operands = [A, B]
             f = getattr(P, case['op'] + '_')
-            r = f(build_operand(case['a']), build_operand(case['b']), **kw)
-            if case.get('swap_check'):
-                r2 = f(build_operand(case['b']), build_operand(case['a']), **kw)
-                if canon_result(r2, any_multi) != canon_result(r, any_multi):
-                    return 'ok', ['NOT-COMMUTATIVE', canon_result(r, any_multi), canon_result(r2, any_multi)]
-        elif case['kind'] == 'minmax':
-            r = getattr(P, case['op'] + '_')(*split(case['xs']), **kw)
+            call = lambda: f(A, B, **kw)
         else:
-            r = getattr(P, 'df_' + case['agg'])(*split(case['xs']), **kw)
-            if case['agg'] == 'std':         # not an exact-integer quantity: cells observed as float.hex strings
-                return 'ok', c03.canon(r, [], lambda v: 'NaN' if float(v) != float(v) else float(v).hex())
-        return 'ok', canon_result(r, any_multi)
+            objs = [c03.build(l, []) for l in case['xs']]
+            operands = objs
+            k = case.get('split')           # min_(a, b) / df_sum(a, b): the operands given as two arguments instead of one list
+            one = lambda l: l[0] if len(l) == 1 else l
+            argv = (objs,) if (not k or k >= len(objs)) else (one(objs[:k]), one(objs[k:]))
+            f = getattr(P, (case['op'] + '_') if case['kind'] == 'minmax' else 'df_' + case['agg'])
+            call = lambda: f(*argv, **kw)
+        before = c03.snap(operands)
+        obs = see(call())
+        if case['kind'] == 'op' and case.get('swap_check'):
+            r2 = see(f(B, A, **kw))
+            if r2 != obs:
+                return 'ok', ['NOT-COMMUTATIVE', obs, r2]
+        _EXTRA[0] = followups(case, call, see, obs, before, operands, kw)
+        return 'ok', obs
     except Exception as e:
         n = type(e).__name__
         n = n if n in ('ValueError', 'KeyError', 'TypeError', 'IndexError', 'AttributeError', 'ZeroDivisionError') else 'Other'
         return n, ['ERR', n]
+
+def followups(case, call, see, obs, before, operands, kw):
+    """operands untouched (cells, index, dtype, name); the same call again gives the same result; another operator applied
+    to the very same objects afterwards is still the pointwise operation (a / b, then a + b, as users write it)"""
+    try:
+        if c03.snap(operands) != before:
+            return 'the operator changed the caller\'s operands: ' + c03.snap_diff(before, c03.snap(operands))
+        again = see(call())
+        if again != obs:
+            return 'the same operator call on the same objects a second time gives another result: ' + str(first_diff(obs, again))
+        then = case.get('then')
+        if then and case['kind'] == 'op':
+            got = see(getattr(P, then + '_')(operands[0], operands[1], **kw))
+            exp = jc(expect_op(dict(case, op=then)))
+            if got != exp:
+                return '%s_ on the same objects after %s_: %s' % (then, case['op'], first_diff(exp, got))
+        if c03.snap(operands) != before:
+            return 'repeated operator calls changed the caller\'s operands: ' + c03.snap_diff(before, c03.snap(operands))
+    except Exception as e:
+        return 'a second operator call on the same objects raised %s: %s' % (type(e).__name__, str(e)[:100])
+    return None
 
 # ------------------------------------------------------------------ oracle: the statement, computed with sets and Fractions
 NAN = None
@@ -346,7 +372,7 @@ def impl(case):
     viol = None
     name = (case.get('op') or 'df_' + case['agg'])
     if case.get('agg') == 'std' and status == 'ok':
-        return {'status': status, 'obs': obs, 'viol': std_diff(exp, obs)}
+        return {'status': status, 'obs': obs, 'viol': std_diff(exp, obs) or _EXTRA[0]}
     if status != 'ok':
         viol = '%s raised %s on valid operands' % (name, status)
     elif obs and obs[0] == 'NOT-COMMUTATIVE':
@@ -354,7 +380,7 @@ def impl(case):
     elif obs != exp:
         viol = '%s(join=%s, method=%s, columns=%s) is not the pointwise operation on the aligned operands: %s' % (
             name, case['how'], case['method'], case['columns'], first_diff(exp, obs))
-    return {'status': status, 'obs': obs, 'viol': viol}
+    return {'status': status, 'obs': obs, 'viol': viol or _EXTRA[0]}
 
 # ------------------------------------------------------------------ classification
 def nontrivial(case, result):
@@ -465,6 +491,19 @@ def gen_cases(rng, tier):
         s = gen_operands(rng, 1, ['num64'], rng.choice(['none', 'none', 'all', 'mixed']))[0]
         for z in (0, None, 2):
             cases.append({'kind': 'op', 'op': 'div', 'a': s, 'b': {'N': z}, 'how': rng.choice(['ij', 'oj']), 'method': rng.choice([None, 'ffill']), 'columns': rng.choice(['ij', 'oj'])})
+    for _ in range(120 if q else 1500):                   # denominators with zeros that are ALREADY on the joint index (no fill): div_, then reuse
+        kind = rng.choice(['S', 'S', 'F'])
+        cols = gen_cols(rng, rng.choice([2, 3])) if kind == 'F' else None
+        full = sorted(rng.sample(range(GRID), rng.randrange(2, 9)))
+        sub = full if rng.random() < 0.5 else sorted(rng.sample(full, rng.randrange(1, len(full) + 1)))
+        a = gen_ts(rng, full, kind, 'num64', cols)
+        b = gen_ts(rng, sub, kind, 'den', cols)
+        if rng.random() < 0.3:
+            a = {'N': 64 * rng.randrange(-3, 4)}
+        how = rng.choice(['ij', 'rj', 'oj']) if sub != full else rng.choice(['ij', 'oj', 'lj', 'rj'])
+        if how == 'oj' and sub != full:
+            how = 'ij'
+        cases.append({'kind': 'op', 'op': 'div', 'a': a, 'b': b if rng.random() < 0.8 else {'many': [b, {'N': 2}]}, 'how': how, 'method': None, 'columns': rng.choice(['ij', 'oj'])})
     for _ in range(200 if q else 3000):                   # list operands / denominators with DIFFERENT column sets under columns='oj'
         op = rng.choice(['div', 'div', 'sub', 'sub', 'add', 'mul'])
         fam = index_family(rng, 3)
@@ -563,6 +602,10 @@ def decorate(rng, case):
             l['F']['cols'] = [ren.get(x, x) for x in l['F']['cols']]
     if c['kind'] in ('minmax', 'agg') and len(c['xs']) > 1 and rng.random() < 0.3:
         c['split'] = rng.randrange(1, len(c['xs']))
+    if rng.random() < 0.25:                               # timezone-aware indices (all operands in the same zone)
+        c['tz'] = rng.choice(['UTC', 'Europe/London', 'US/Eastern', 'Asia/Tokyo'])
+    if c['kind'] == 'op' and c['op'] in ('add', 'sub', 'mul', 'div') and c['b'] is not None and (c['op'] == 'div' or rng.random() < 0.5):
+        c['then'] = rng.choice([o for o in ('add', 'sub', 'mul') if o != c['op']])     # a second operator on the very same objects
     return c
 
 # ------------------------------------------------------------------ shrinking
